@@ -1,6 +1,6 @@
 /-
 Hand-written executable model of the Euler transport part of
-kawin/precipitation/PopulationBalance.py (getdXdtEuler 531-568, correctdXdtEuler 570-620,
+kawin/precipitation/PopulationBalance.py (getdXdtEuler 531-568, correctdXdtEuler 573-633 (three passes),
 getDTEuler 493-529, getDissolutionIndex 466-490).  Core Lean only; generic scalar.
 
 Classes are 0..n-1, faces 0..n.  Arrays are index functions `Nat → α`; the driver wraps lists.
@@ -46,9 +46,34 @@ def limitBelow (n : Nat) (dt : α) (psd nf : Nat → α) (j : Nat) : α :=
 def limitAbove (n : Nat) (dt : α) (psd nf : Nat → α) (j : Nat) : α :=
   if 1 ≤ j ∧ j ≤ n ∧ psd (j-1) < nf j * dt then psd (j-1) / dt else nf j
 
-/-- corrected face fluxes (the two passes in the code's order) -/
-def correctedFlux (n : Nat) (dt : α) (psd nf : Nat → α) : Nat → α :=
+/-- `np.maximum(x, 0)` -/
+def pos0 (x : α) : α := if (0 : α) < x then x else 0
+
+/-- total outflow of class i: `outLeft + outRight = np.maximum(-netFlux[:-1], 0) + np.maximum(netFlux[1:], 0)`.
+A negative flux at its left face and a positive flux at its right face both carry particles OUT of class i. -/
+def outflow (nf : Nat → α) (i : Nat) : α := pos0 (- nf i) + pos0 (nf (i+1))
+
+/-- third pass (commit "fix: correctdXdtEuler also limits the TOTAL outflow of a size class"):
+`indOut = outflow*dt > psd; scale = ones; scale[indOut] = psd/(outflow*dt)`;
+`netFlux[:-1][outLeft > 0] *= scale[outLeft > 0]` then `netFlux[1:][outRight > 0] *= scale[outRight > 0]`.
+Face j is scaled with the factor of class j when it is that class's outflow face (`outLeft[j] > 0`), with the
+factor of class j-1 when it is that class's outflow face (`outRight[j-1] > 0`); the two conditions exclude each
+other, `outLeft`/`outRight`/`scale` are all computed from the fluxes `nf` left by the first two passes.
+A factor of 1 (class not in `indOut`) leaves the flux as it is. -/
+def limitOut (n : Nat) (dt : α) (psd nf : Nat → α) (j : Nat) : α :=
+  if j < n ∧ (0 : α) < pos0 (- nf j) then
+    (if psd j < outflow nf j * dt then nf j * (psd j / (outflow nf j * dt)) else nf j)
+  else if 1 ≤ j ∧ j ≤ n ∧ (0 : α) < pos0 (nf j) then
+    (if psd (j-1) < outflow nf (j-1) * dt then nf j * (psd (j-1) / (outflow nf (j-1) * dt)) else nf j)
+  else nf j
+
+/-- the two face-wise passes alone, in the code's order (all of correctdXdtEuler before the repair) -/
+def faceLimited (n : Nat) (dt : α) (psd nf : Nat → α) : Nat → α :=
   limitAbove n dt psd (limitBelow n dt psd nf)
+
+/-- corrected face fluxes (the three passes in the code's order) -/
+def correctedFlux (n : Nat) (dt : α) (psd nf : Nat → α) : Nat → α :=
+  limitOut n dt psd (faceLimited n dt psd nf)
 
 end generic
 
